@@ -108,7 +108,7 @@ fn sync_script(root: &vfs::VfsPath, path: &str, len: u64, script: &[ROp]) -> Res
                 let sf = seek_from(w, o, len, false, None);
                 out.push(h.seek(sf).map(|p| (p, vec![])).map_err(|e| format!("{:?}", e.kind())));
             }
-            ROp::ReadToEnd => {
+            ROp::ReadToEnd(_) => {
                 let mut v = vec![];
                 let r = h.read_to_end(&mut v);
                 out.push(r.map(|n| (n as u64, v)).map_err(|e| format!("{:?}", e.kind())));
